@@ -386,6 +386,16 @@ struct C09 : Property {
           // the network duplicated are each delivered; "at most once" is judged for Confirmable transfers only.
           // A body carried by one message is not a block-wise transfer; what happens to duplicates of that message is C07's subject.
           bool one_message = !first.empty() && first.size() == 1 && first[0]->offset == 0 && first[0]->size == x.len;
+          // Non-confirmable block-wise download: the block layer records the blocks it has received (check_if_received_block), so
+          // a network copy of a block that is not the last one must not reach the application again while the transfer runs
+          // (copies of the final block arrive when the transfer state is gone: C07's subject).
+          // (not judged when a copy of a request reached the server: it answers twice, with a new ETag, and the client restarts)
+          if (twice && !x.con && !x.put && !one_message && !first.empty() && !cw.request_copy_delivered_twice) {
+            size_t last_off = first.back()->offset;
+            bool inner_twice = false;
+            for (auto &kv : seen_off) if (kv.second > 1 && kv.first != last_off) inner_twice = true;
+            if (inner_twice && tiles && pos == x.len) bad("block_delivered_twice", strfmt("per_block_mode,download_at_client,non_confirmable,%s", any_fault ? "faults_fired" : "no_faults"), "a block other than the last one of a Non-confirmable download was handed to the application more than once");
+          }
           if (twice && x.con && !one_message) bad("block_delivered_twice", strfmt("per_block_mode,%s,%s", x.put ? "upload_at_server" : "download_at_client", any_fault ? "faults_fired" : "no_faults"), "a block was handed to the receiving application more than once");
           if (!tiles && !first.empty() && !any_fault) bad("tiling_hole", "no_faults", "delivered blocks do not tile the body");
         } else if (complete > 1) bad("body_delivered_twice", same_datagram_twice[x.put ? 1 : 0] ? "receiver_got_an_identical_datagram_twice" : "all_datagrams_distinct", strfmt("complete body delivered %zu times", complete));
